@@ -19,8 +19,8 @@ for s in $names; do
   git -C $W checkout -q -- . ; git -C $W apply /verif/seeded/$s/patch.diff || { echo "$s $p APPLY-FAIL" >> $V/RESULTS.txt; continue; }
   for q in $props $extra; do
     t0=$(date +%s)
-    $V/bin/check $q --no-design > $V/work/seed_$s_$q.log 2>&1; rc=$?
-    first=$(grep -m1 "^REJECTED" $V/work/seed_$s_$q.log | cut -c1-260)
+    $V/bin/check $q --no-design > $V/work/seed_${s}_${q}.log 2>&1; rc=$?
+    first=$(grep -m1 "^REJECTED" $V/work/seed_${s}_${q}.log | cut -c1-260)
     echo "$s check=$q exit=$rc $(( $(date +%s) - t0 ))s | $first" >> $V/RESULTS.txt
   done
 done
